@@ -241,8 +241,10 @@ class Sandbox(object):
     def __exit__(self, *exc):
         return self._cm.__exit__(*exc)
 
-    def execute(self, job, pre, inputs, answers):
-        """Materialise *pre* (dict path -> (content, rank)), run the real pipeline once, observe."""
+    def execute(self, job, pre, inputs, answers, keep=None):
+        """Materialise *pre* (dict path -> (content, rank)), run the real pipeline once, observe.
+        *keep*: a dictionary that carries one pipeline object from run to run (a long-lived process
+        that runs its pipeline again) instead of building a new one for every run."""
         kind, p, cfg = job["kind"], job["p"], job["cfg"]
         if not pre:
             # the very first run (or everything deleted): no output directory at all
@@ -275,7 +277,15 @@ class Sandbox(object):
         exc = None
         results = None
         try:
-            seq = build(kind, p, cfg, taps)
+            if keep is None:
+                seq = build(kind, p, cfg, taps)
+            else:
+                if "seq" not in keep:
+                    keep["taps"] = []
+                    keep["seq"] = build(kind, p, cfg, keep["taps"])
+                taps = keep["taps"]
+                del taps[:]
+                seq = keep["seq"]
             results = list(seq.run(values(p, inputs["data"])))
         except Exception as e:  # judged, never propagated
             exc = type(e).__name__
@@ -635,6 +645,71 @@ def explore_job(job, res):
     return res
 
 
+REUSE_KEYS = ("exc", "post", "written", "launches", "finals")
+
+
+def check_reuse(res, sb, job, steps):
+    """One pipeline object used for all runs of a history (deletions and input changes between the
+    runs as usual) must do in every run what a freshly built pipeline does in the same situation
+    (differential; what a run has to do is judged on the fresh pipelines by law "history")."""
+    case = {"law": "reuse", "kind": job["kind"], "p": job["p"], "cfg": job["cfg"], "steps": steps}
+    state = {}
+    keep = {}
+    for n, step in enumerate(steps):
+        gone = set(step["delete"])
+        pre = {q: v for q, v in state.items() if q not in gone}
+        inputs = {"data": step["data"], "tpl": step["tpl"]}
+        fresh = sb.execute(job, pre, inputs, [])
+        flags_f = [(r["doc"], r["stage"], _flagname(r["flag"])) for r in fresh["taps"]]
+        again = sb.execute(job, pre, inputs, [], keep=keep)
+        flags_a = [(r["doc"], r["stage"], _flagname(r["flag"])) for r in again["taps"]]
+        res.transitions += 2
+        if n == len(steps) - 1:
+            res.traces += 1
+            res.case(nontrivial=n >= 1, outcome=(canon(again["state"]), tuple(flags_a)))
+        diff = [k for k in REUSE_KEYS if fresh[k] != again[k]]
+        if flags_f != flags_a:
+            diff.append("changed-flags")
+        if diff:
+            if n == len(steps) - 1:      # shorter prefixes are histories of their own
+                stale = sorted(os.path.splitext(q)[1][1:] for q in set(fresh["post"]) | set(again["post"])
+                               if fresh["post"].get(q) != again["post"].get(q))
+                res.violation(case, {k: (sorted(again[k]) if isinstance(again[k], set) else again[k])
+                                     for k in diff if k in again},
+                              {k: (sorted(fresh[k]) if isinstance(fresh[k], set) else fresh[k])
+                               for k in diff if k in fresh},
+                              {"law": "pipeline-object-reuse", "differs": sorted(diff), "files": stale,
+                               "run": min(n, 2), "pipeline": job["kind"]},
+                              note="run %d of one pipeline object differs from a freshly built pipeline" % (n + 1))
+            return case
+        state = fresh["state"]
+    return case
+
+
+def reuse_histories(job, sb, maxlen, res):
+    """All histories of 2..maxlen runs (first run in an empty directory); between runs every subset of
+    the files is deleted for the step before the last one judged... for length 3 deletions are
+    restricted to nothing or a single file (stated in describe())."""
+    inputs0 = all_inputs(job["p"])
+    first = [{"delete": [], "data": i["data"], "tpl": i["tpl"]} for i in inputs0]
+
+    def successors(state, full):
+        files = sorted(state)
+        dels = deletion_sets(job, files) if full else [[]] + [[q] for q in files]
+        return [{"delete": d, "data": i["data"], "tpl": i["tpl"]} for d in dels for i in inputs0]
+
+    for s1 in first:
+        st1 = sb.execute(job, {}, {"data": s1["data"], "tpl": s1["tpl"]}, [])["state"]
+        for s2 in successors(st1, True):
+            last = check_reuse(res, sb, job, [s1, s2])
+            if maxlen >= 3 and not s2["delete"] or (maxlen >= 3 and len(s2["delete"]) == 1):
+                pre2 = {q: v for q, v in st1.items() if q not in set(s2["delete"])}
+                st2 = sb.execute(job, pre2, {"data": s2["data"], "tpl": s2["tpl"]}, [])["state"]
+                for s3 in successors(st2, False):
+                    last = check_reuse(res, sb, job, [s1, s2, s3])
+        res.sample(last, 1)
+
+
 def _discover_task(args):
     job, state_json, hist = args
     with Sandbox() as sb:
@@ -868,6 +943,10 @@ def shards(tier):
                         "bound": "laws"})
     for job in light:
         out.append({"kind": "explore", "job": job, "bound": "histories"})
+    for kind_, p_ in (("plain", 1), ("grouped", 2)):
+        out.append({"kind": "reuse", "job": {"kind": kind_, "p": p_, "cfg": _cfg()},
+                    "maxlen": 3 if (tier == "thorough" or kind_ == "plain") else 2,
+                    "bound": "one pipeline object for all runs"})
     if heavy:
         found = discover(heavy)
         for k, depth, sj, hist in sorted(found, key=lambda t: (t[1], t[0])):
@@ -899,6 +978,9 @@ def run_shard(p, tier):
                     res.sample(case, 2)
     elif kind == "explore":
         explore_job(p["job"], res)
+    elif kind == "reuse":
+        with Sandbox() as sb:
+            reuse_histories(p["job"], sb, p["maxlen"], res)
     elif kind == "expand":
         job = p["job"]
         table = M.symbols(job["kind"], job["p"])
@@ -931,6 +1013,10 @@ def replay(case):
                         res.violation(case, observed, expected, cause,
                                       note or ("state after the run: %s" % symbolic(obs["state"], table)))
                 state = obs["state"]
+    elif law == "reuse":
+        job = {"kind": case["kind"], "p": case["p"], "cfg": case["cfg"]}
+        with Sandbox() as sb:
+            check_reuse(res, sb, job, case["steps"])
     elif law == "naming":
         # elements are stored with their positioned strings: undo the positioning by direct use
         seqspecs = case["elements"]
